@@ -9,7 +9,7 @@ Require Import MV.Errors.ExcSyntax.
    in_pass  : T in (errors.PyCTError, AutoGraphError, ConversionError, StagingError)
    fact     : the code's own plain-constructor test holds for T   (runtime fact)
    in_known : T in KNOWN_STRING_CONSTRUCTOR_ERRORS
-   is_key   : T is KeyError *)
+   is_key   : T is KeyError (T is one of the generated key_error_types) *)
 Record valuation := mkval { in_pass : bool; fact : bool; in_known : bool; is_key : bool }.
 
 Inductive created := Same | MultilineKeyError | Staging.
@@ -68,11 +68,27 @@ Record exc_type := mkexc { et_name : string;     (* module.qualname *)
 
 Definition mem (s : string) (l : list string) : bool := existsb (String.eqb s) l.
 
-Definition valuation_of (pass known : list string) (t : exc_type) : valuation :=
-  mkval (mem (et_name t) pass) (et_fact t) (mem (et_name t) known) (String.eqb (et_name t) "builtins.KeyError").
+Definition valuation_of (pass known keys : list string) (t : exc_type) : valuation :=
+  mkval (mem (et_name t) pass) (et_fact t) (mem (et_name t) known) (mem (et_name t) keys).
 
-Definition create_for (pass known : list string) (rules : list ifchain) (t : exc_type) : created :=
-  api_create rules (valuation_of pass known t).
+Definition create_for (pass known keys : list string) (rules : list ifchain) (t : exc_type) : created :=
+  api_create rules (valuation_of pass known keys t).
+
+(* the type of the exception that reaches the caller of one malt.convert wrapper *)
+Definition multiline_name : string := "malt.pyct.error_utils.MultilineMessageKeyError".
+Definition staging_name : string := "malt.impl.api.StagingError".
+Definition name_after (t : exc_type) (c : created) : string :=
+  match c with Same => et_name t | MultilineKeyError => multiline_name | Staging => staging_name end.
+(* the exception crosses n wrappers; facts n = the code's own test on the type that arrives at wrapper n *)
+Fixpoint through (pass known keys : list string) (rules : list ifchain) (name : string) (facts : list bool) : string :=
+  match facts with
+  | [] => name
+  | f :: r => let t := mkexc name f false in
+              through pass known keys rules (name_after t (create_for pass known keys rules t)) r
+  end.
+
+(* the key test of the unchanged tree: `preferred_type is KeyError` *)
+Definition identity_keys : list string := ["builtins.KeyError"]%string.
 
 (* the rule as it stands in the unchanged tree (hand copy, used only by the _refuted obligation) *)
 Definition identity_rules : list ifchain :=
@@ -84,7 +100,10 @@ Definition required_known : list string :=
    "builtins.RuntimeError"; "builtins.StopIteration"; "builtins.TypeError"; "builtins.UnboundLocalError";
    "builtins.ValueError"]%string.
 
-Definition tables_ok (pass known : list string) : bool :=
+Definition tables_ok (pass known keys : list string) : bool :=
   forallb (fun n => mem n known) required_known
-  && negb (mem "builtins.KeyError" known) && negb (mem "builtins.KeyError" pass)
+  && forallb (fun k => negb (mem k known) && negb (mem k pass)) keys
+  && mem "builtins.KeyError" keys
+  && forallb (fun n => negb (mem n keys)) required_known
+  && negb (mem "malt.impl.api.StagingError" keys)
   && mem "malt.impl.api.StagingError" pass.
